@@ -99,7 +99,7 @@ Step ==
               IN
               /\ fs' = nfs
               /\ bad' = b3
-              /\ kmm' = IF IsMutation(e) /\ e.d1 # 0 /\ (okk # r.res.ok) THEN Kmm("library step: model and kernel disagree", e) ELSE kmm
+              /\ kmm' = IF IsMutation(e) /\ e.d1 # 0 /\ ~e.inj /\ (okk # r.res.ok) THEN Kmm("library step: model and kernel disagree", e) ELSE kmm
               /\ everIn' = everIn \cup ReachFrom(nfs, {R})
               /\ UNCHANGED <<caseId, inCall, outside0>>
          [] e.ev = "end" ->
